@@ -23,6 +23,7 @@ type apiScen struct {
 		Upd     string `json:"upd"`
 		Events  string `json:"events"`
 		List    string `json:"list"`
+		Data    string `json:"data"`
 		Payload string `json:"payload"`
 		Enc     string `json:"enc"`
 		Wit     string `json:"wit"`
@@ -117,6 +118,16 @@ func api(a *hx.Args, res *hx.Result) {
 				if sc.S.List == "used" { // the variable held another list before
 					el = w.eventlist(1, 4, false)
 				}
+				if sc.S.List == "failed" { // ... whose verification failed
+					broken := append([]*revocation.Event{}, w.events[1:5]...)
+					ev := *broken[2]
+					ev.ParentHash = w.events[0].ParentHash
+					broken[2] = &ev
+					el = revocation.NewEventList(broken...)
+					if el.Verify(w.accs[4]) == nil {
+						hx.Fatal("a broken chain verified")
+					}
+				}
 				src := revocation.NewEventList()
 				want := 0
 				if sc.S.Payload == "some" {
@@ -136,12 +147,25 @@ func api(a *hx.Args, res *hx.Result) {
 				if err == nil && len(el.Events) != want {
 					bad = fmt.Sprintf("after decoding a list of %d events the variable holds %d", want, len(el.Events))
 				}
+				if err == nil && want > 0 {
+					if verr := el.Verify(w.accs[3]); verr != nil {
+						bad = fmt.Sprintf("the genuine list does not verify after being decoded into the %s variable: %v", sc.S.List, verr)
+					}
+				}
 			case "witness-update":
 				wit := w.witness(witE, 2, 0, true)
-				if sc.S.Wit == "decoded" {
+				if sc.S.Wit != "built" {
 					b, merr := json.Marshal(wit)
 					if merr != nil {
 						hx.Fatal("marshal witness: %v", merr)
+					}
+					if sc.S.Wit == "decoded-no-u" || sc.S.Wit == "decoded-no-e" { // stored incompletely
+						var m map[string]json.RawMessage
+						if uerr := json.Unmarshal(b, &m); uerr != nil {
+							hx.Fatal("unmarshal: %v", uerr)
+						}
+						delete(m, map[string]string{"decoded-no-u": "u", "decoded-no-e": "e"}[sc.S.Wit])
+						b, _ = json.Marshal(m)
 					}
 					wit = new(revocation.Witness)
 					if uerr := json.Unmarshal(b, wit); uerr != nil {
@@ -151,6 +175,34 @@ func api(a *hx.Args, res *hx.Result) {
 				err = wit.Update(kp.PK, w.update(0, n, 0, -1))
 				if err == nil && (!w.valid(wit) || int(wit.SignedAccumulator.Accumulator.Index) != n) {
 					bad = "Witness.Update succeeded but the witness is not valid at the new index"
+				}
+			case "redecode-accumulator":
+				// an update variable that was decoded and verified (accumulator of index 3) receives another message
+				u := viaJSONUpdate(w.update(2, 3, 0, -1))
+				if _, verr := u.Verify(kp.PK); verr != nil {
+					hx.Fatal("genuine update does not verify: %v", verr)
+				}
+				next := w.update(2, n, 0, -1)
+				if sc.S.Data == "garbage" {
+					next.SignedAccumulator = &revocation.SignedAccumulator{Data: []byte{0, 1, 2, 3}, PKCounter: kp.PK.Counter}
+				}
+				var b []byte
+				if sc.S.Enc == "json" {
+					if b, err = json.Marshal(next.SignedAccumulator); err == nil {
+						err = json.Unmarshal(b, u.SignedAccumulator) // into the used object: unserialised fields survive
+					}
+				} else {
+					if b, err = cbor.Marshal(next.SignedAccumulator, cbor.EncOptions{}); err == nil {
+						err = cbor.Unmarshal(b, u.SignedAccumulator)
+					}
+				}
+				if err != nil {
+					hx.Fatal("decoding into the used object failed: %v", err)
+				}
+				var acc *revocation.Accumulator
+				acc, err = u.SignedAccumulator.UnmarshalVerify(kp.PK)
+				if err == nil && int(acc.Index) != n {
+					bad = fmt.Sprintf("the object now carries the signed bytes of accumulator %d, UnmarshalVerify answers with accumulator %d", n, acc.Index)
 				}
 			case "flatten":
 				lists := []*revocation.EventList{w.eventlist(0, 2, true), w.eventlist(3, n, true)}
